@@ -15,7 +15,7 @@ EXPLANATION = ("per case: p+d, d+p, p-d and p+(-d) on the implementation; the mo
 
 
 def generate(rng, tier):
-    n = 6000 if tier == "quick" else 150000
+    n = 12000 if tier == "quick" else 300000
     cases = []
     for i in range(n):
         md = MODES[i % 4]
